@@ -143,7 +143,7 @@ def translate_source():
     h.update(open(os.path.join(ROOT, "tools/cxxloop2coq.py"), "rb").read())
     h.update(open(os.path.join(ROOT, "tools/cxxgmp2coq.py"), "rb").read())
     h.update(open(os.path.join(ROOT, "tools/cxxos2coq.py"), "rb").read())
-    for f in ("lib/prng/randombytes.cpp", "include/nfl/prng/randombytes.h"):
+    for f in ("lib/prng/randombytes.cpp", "lib/prng/fastrandombytes.cpp", "include/nfl/prng/randombytes.h"):
         if os.path.exists(os.path.join(REPO, f)): h.update(open(os.path.join(REPO, f), "rb").read())
     tag = "(* source-hash %s *)" % h.hexdigest()
     dst = os.path.join(COQ, "gen/Gen.v"); dstv = os.path.join(COQ, "gen/GenVec.v"); dstl = os.path.join(COQ, "gen/GenLoop.v"); dstg = os.path.join(COQ, "gen/GenGmp.v"); dsto = os.path.join(COQ, "gen/GenOs.v")
@@ -263,6 +263,7 @@ def prove(prop_file, timeout=1500):
     thms = re.findall(r"^\s*(?:Theorem|Corollary)\s+(\w+)", strip_comments(src), re.M)
     res["theorems"] = thms
     res["obligations"] = len(thms)
+    translate_source()          # every proof run starts from the translation of the CURRENT source (cached on a hash of the sources and translators)
     with Lock("coq"):
         coq_makefile()
         bad = scan_forbidden()
